@@ -48,7 +48,19 @@ run_b() { VERIF_TIER="$tier" exec bin/verifb.test -test.run "^Test$1\$" -test.ti
 
 case "${1:-}" in
   setup)
+    # warm the build caches of both toolchains and compile every harness binary once
     build_s
+    (cd h && go build -o ../bin/c04writer ./cmd/c04writer) || exit 3
+    build_b
+    python3 gen_gated.py || exit 3
+    (cd h && go1.26.8 test -c -vet=off -overlay ../bin/ov_gate.json -o ../bin/verifb_gated.test ./tb) || exit 3
+    tier=quick
+    printf '{"Replace":{"/repo/client/zz_verif_c14_test.go":"%s/overlay/c14_test.go.txt"}}' "$VERIF_ROOT" > bin/ov_c14.json
+    (cd h && go test -c -overlay ../bin/ov_c14.json -vet=off -o ../bin/c14.test github.com/simpleiot/simpleiot/client) || exit 3
+    cp /repo/go.sum realnats/go.sum 2>/dev/null
+    printf '{"Replace":{"/repo/server/zz_verif_bustoken_test.go":"%s/overlay/bustoken_test.go.txt"}}' "$VERIF_ROOT" > bin/ov_bustoken.json
+    (cd realnats && go test -c -overlay ../bin/ov_bustoken.json -vet=off -o ../bin/bustoken.test github.com/simpleiot/simpleiot/server) || exit 3
+    echo "setup ok"
     exit 0;;
   replay)
     prop=$(jq -r .property "$2")
